@@ -135,4 +135,14 @@ open Falcon.CfgEdit Falcon.Assemble in
 theorem asm_merge_executions {c : Cfg} (hw : WF c) : ∃ μ, C06Asm.ExecEquiv c (merge c).cfg μ :=
   C06Asm.merge_preserves_executions hw
 
+open Falcon.CfgEdit Falcon.Assemble in
+/-- runs that cannot continue correspond under the Ψ of `asm_refines` -/
+theorem asm_refines_stuck {tb : List (Nat × BTR)} {manual : List ManualEdge} {f : Function} {Ψ : RConfig → Config}
+    (hfwd : ∀ x y, RValid tb x → RRun tb manual x y → FRun f (Ψ x) (Ψ y))
+    (hbwd : ∀ x z, RValid tb x → FRun f (Ψ x) z → ∃ y, RRun tb manual x y ∧ Ψ y = z)
+    {y : RConfig} (hv : RValid tb y) :
+    ((∀ y', ¬ RStep tb manual y y') → ∀ z, FStep f (Ψ y) z → z = Ψ y) ∧
+    ((∀ z, ¬ FStep f (Ψ y) z) → ∀ y', RStep tb manual y y' → Ψ y' = Ψ y) :=
+  C06Asm.asm_refines_stuck hfwd hbwd hv
+
 end Falcon.C06
